@@ -33,6 +33,15 @@ macro_rules! iden_static_enum {
 
 iden_enum!(FontGlyph { Id, FontSize, SizeW, SizeH, XMLHttpRequest, HTTPServer, Abc123Def, A1Bc, ID, Id2, X, Aa, ABc, AbC, ABC, Snake_Case, trailing_, UserID, IOError, Utf8String, V2Api, Created_At, A, B2, Zz9, LongVariantNameWithManyWords });
 iden_enum!(HTTPRequestLog { RequestID, URL, Url2, StatusCode200 });
+// digits inside and after acronyms: a digit continues the word it is in (heck), it never starts one
+iden_enum!(UTF8BOM { UTF8BOM, X509V3Cert, SHA256Sum, HTTP2Server, A1B2, Ipv4Addr, Utf16LE, B64, Sha3_256, MD5Hash, I18N, K8S, Oauth2Token, Base64URL, X86_64 });
+// IdenStatic with a renamed container: as_str() and to_string() of `Table` are both the rename
+#[derive(IdenStatic, Clone, Copy)]
+#[iden = "character"]
+enum StaticRenamed { Table, Id, #[iden = "font size"] FontSize }
+#[derive(IdenStatic, Clone, Copy)]
+#[iden(rename = "glyph_tbl")]
+enum StaticRenamed2 { Table, SizeW }
 iden_enum!(x_lower { Col });
 // variants whose snake_case is "table" but which are not the `Table` variant
 iden_enum!(TableLike { TABLE, table, Table_, _Table, TableName, Tables, TABLE2 });
@@ -150,7 +159,16 @@ pub fn run(ctx: &mut Ctx) {
     let n = if thorough { 400000 } else { 60000 };
     ctx.rule = format!("~200 derived items expanded by /repo's macros at build time (PascalCase, acronym, digit and underscore patterns; Table variants; #[iden = ..], #[iden(rename = ..)], #[method = ..], container renames on enums and unit structs, flattened variants with quote-bearing inner names, IdenStatic, enum_def with prefix / suffix / table_name): to_string vs the documented rule (heck snake_case as the reference), prepare() vs the general quoting on 3 backends and for every quote a custom backend may pass (each ASCII punctuation byte, bracket pairs), one type per punctuation character so that the per-type fast-path predicate is exercised alone, as_str; then {} generated ASCII identifiers: Lean model of to_snake_case / to_pascal_case / must_be_valid_iden vs heck and vs the rule. Non-trivial = every item; distinct by item.", n);
     // plain enums: Table = snake(type name); variants = snake(variant)
-    let mut items = FontGlyph::all(); items.extend(HTTPRequestLog::all()); items.extend(x_lower::all()); items.extend(TableLike::all());
+    for (what, got_str, got_string, want) in [
+        ("StaticRenamed::Table", StaticRenamed::Table.as_str(), StaticRenamed::Table.to_string(), "character"), ("StaticRenamed::Id", StaticRenamed::Id.as_str(), StaticRenamed::Id.to_string(), "id"),
+        ("StaticRenamed::FontSize", StaticRenamed::FontSize.as_str(), StaticRenamed::FontSize.to_string(), "font size"),
+        ("StaticRenamed2::Table", StaticRenamed2::Table.as_str(), StaticRenamed2::Table.to_string(), "glyph_tbl"), ("StaticRenamed2::SizeW", StaticRenamed2::SizeW.as_str(), StaticRenamed2::SizeW.to_string(), "size_w")] {
+        ctx.eval_only(&format!("static-renamed {what}"), true);
+        if got_str != want || got_string != want { ctx.oracle_fail("IdenStatic::as_str differs from the documented name", serde_json::json!({"item": what, "as_str": got_str, "to_string": got_string, "expected": want})); }
+        let r: &str = match what { "StaticRenamed::Table" => StaticRenamed::Table.as_ref(), "StaticRenamed2::Table" => StaticRenamed2::Table.as_ref(), _ => want };
+        if r != want { ctx.oracle_fail("IdenStatic::as_str differs from the documented name", serde_json::json!({"item": what, "as_ref": r, "expected": want})); }
+    }
+    let mut items = FontGlyph::all(); items.extend(HTTPRequestLog::all()); items.extend(UTF8BOM::all()); items.extend(x_lower::all()); items.extend(TableLike::all());
     for (ty, v, it) in items {
         let expect = if v == "Table" { ty.to_snake_case() } else { v.to_snake_case() };
         check_value(ctx, &format!("{ty}::{v}"), it.as_ref(), &expect);
@@ -198,7 +216,7 @@ pub fn run(ctx: &mut Ctx) {
     check_value(ctx, "WithTableIden::Table", &WithTableIden::Table, "custom_tbl");
     check_value(ctx, "WithTableIden::AB", &WithTableIden::AB, "a_b");
     // the case-conversion model against heck
-    let corpus = ["FontSize", "XMLHttpRequest", "SizeW", "Abc123Def", "A1Bc", "ID", "snake_case__x", "_lead", "trail_", "a", "A", "aB", "ABc", "AbC", "x1Y2", "HTTPServer2Go", "__", "created_at", "xY_z", "HTTPCode"];
+    let corpus = ["FontSize", "XMLHttpRequest", "SizeW", "Abc123Def", "A1Bc", "ID", "snake_case__x", "_lead", "trail_", "a", "A", "aB", "ABc", "AbC", "x1Y2", "HTTPServer2Go", "__", "created_at", "xY_z", "HTTPCode", "UTF8BOM", "X509V3Cert", "SHA256Sum", "A1B2", "Utf16LE", "I18N", "X86_64", "Sha3_256"];
     let mut check_conv = |ctx: &mut Ctx, s: &str| {
         let sc = s.to_string();
         ctx.case(format!("derive snake {}", hs(s)), format!("ok {}", hs(&s.to_snake_case())), s.len() > 1, &|| format!("to_snake_case({:?})", sc));
